@@ -51,6 +51,8 @@ RECURSIVE IndexOf(_, _, _)
 IndexOf(seq, x, k) == IF k > Len(seq) THEN 0 ELSE IF seq[k] = x THEN k ELSE IndexOf(seq, x, k + 1)
 
 HasDev(C, d) == d \in C.dev
+\* the NanoVM code generator (fixed) and the tree-walking evaluator (still) keep block-local names alive after the block
+NoBlockScope(C) == HasDev(C, "VM_NO_BLOCK_SCOPE") \/ HasDev(C, "INTERP_NO_BLOCK_SCOPE")
 
 \* -------------------------------------------------------- program tables
 FuncIdx(C, name)   == FindName(C.p.funcs, name)
@@ -110,6 +112,7 @@ BinApply(C, op, x, y, st) ==
              LET r == ArithOp(C, op, x.i, y.i) IN
              IF r.ok = "ok" THEN RV(VInt(r.v), st) ELSE RV(VVoid, Fault(st, r.ok))
         ELSE IF op = "+" /\ x.t = "str" /\ y.t = "str" THEN RV(VStr(x.s \o y.s), st)
+        ELSE IF x.t = "float" /\ y.t = "float" THEN RV(VVoid, Fault(st, "unspecified:float-arith"))   \* no IEEE arithmetic in this specification
         ELSE RV(VVoid, Fault(st, "stuck:type"))
    ELSE IF op \in CmpOps THEN
         IF (x.t = "int" /\ y.t = "int") \/ (x.t = "float" /\ y.t = "float") THEN RV(VBool(CmpOp(op, x.i, y.i)), st)
@@ -243,6 +246,12 @@ Eval(C, e, st0) ==
                              ELSE RV(VUnion(e.s, [d \in 1..Len(defs) |-> r.vs[IndexOf(e.f, defs[d], 1)]]), r.st)
      [] e.k = "tlit" -> LET r == EvalList(C, e.a, 1, <<>>, st) IN
                         IF Bad(r.st) THEN RV(VVoid, r.st) ELSE RV(VTuple(r.vs), r.st)
+     [] e.k = "alit" /\ HasDev(C, "INTERP_ARRAY_LIT_FIRST_TWICE") /\ Len(e.a) > 0 ->
+                        \* eval.c evaluates the first element once to find the element type and then every element
+                        LET r0 == Eval(C, e.a[1], st)
+                            r == EvalList(C, e.a, 1, <<>>, r0.st) IN
+                        IF Bad(r.st) THEN RV(VVoid, r.st)
+                        ELSE RV(VArr(Len(r.st.store) + 1), [r.st EXCEPT !.store = Append(@, r.vs)])
      [] e.k = "alit" -> LET r == IF HasDev(C, "NATIVE_ARGS_RTL") THEN EvalListRTL(C, e.a, Len(e.a), <<>>, st)
                                  ELSE EvalList(C, e.a, 1, <<>>, st) IN
                         IF Bad(r.st) THEN RV(VVoid, r.st)
@@ -364,7 +373,7 @@ Builtin(C, name, vs, st) ==
 ExecScoped(C, stmts, st) ==
    LET n == Len(st.env)
        r == ExecSeq(C, stmts, 1, st) IN
-   IF HasDev(C, "VM_NO_BLOCK_SCOPE") THEN r          \* codegen.c keeps the inner name visible after the block
+   IF NoBlockScope(C) THEN r          \* codegen.c keeps the inner name visible after the block
    ELSE [r EXCEPT !.st.env = SubSeq(r.st.env, 1, n)]
 
 ExecSeq(C, stmts, k, st) ==
@@ -414,6 +423,7 @@ Exec(C, s, st0) ==
             ELSE IF lo.v.t # "int" \/ hi.v.t # "int" THEN RS("n", VVoid, Fault(hi.st, "stuck:type"))
             ELSE LET n == Len(hi.st.env)
                      r == ExecFor(C, s, lo.v.i, hi.v.i, hi.st) IN
+                 \* (the evaluator drops the loop's names when the for statement ends, although not between iterations)
                  IF HasDev(C, "VM_NO_BLOCK_SCOPE") THEN r ELSE [r EXCEPT !.st.env = SubSeq(r.st.env, 1, n)]
      [] s.k = "forin" ->
             LET a == Eval(C, s.a[1], st) IN
@@ -459,7 +469,7 @@ ExecFor(C, s, i, hi, st0) ==
    ELSE IF ~I64Lt(i, hi) THEN RS("n", VVoid, st)
    ELSE LET n == Len(st.env)
             b == ExecScoped(C, s.b, [st EXCEPT !.env = Append(@, [n |-> s.s, v |-> VInt(i)])])
-            after == IF HasDev(C, "VM_NO_BLOCK_SCOPE") THEN b.st ELSE [b.st EXCEPT !.env = SubSeq(@, 1, n)] IN
+            after == IF NoBlockScope(C) THEN b.st ELSE [b.st EXCEPT !.env = SubSeq(@, 1, n)] IN
         IF Bad(b.st) THEN b
         ELSE IF b.sig = "b" THEN RS("n", VVoid, after)
         ELSE IF b.sig = "r" THEN [b EXCEPT !.st = after]
@@ -472,7 +482,7 @@ ExecForIn(C, s, arr, k, st0) ==
    ELSE IF k > Len(ArrOf(st, arr)) THEN RS("n", VVoid, st)
    ELSE LET n == Len(st.env)
             b == ExecScoped(C, s.b, [st EXCEPT !.env = Append(@, [n |-> s.s, v |-> ArrOf(st, arr)[k]])])
-            after == IF HasDev(C, "VM_NO_BLOCK_SCOPE") THEN b.st ELSE [b.st EXCEPT !.env = SubSeq(@, 1, n)] IN
+            after == IF NoBlockScope(C) THEN b.st ELSE [b.st EXCEPT !.env = SubSeq(@, 1, n)] IN
         IF Bad(b.st) THEN b
         ELSE IF b.sig = "b" THEN RS("n", VVoid, after)
         ELSE IF b.sig = "r" THEN [b EXCEPT !.st = after]
